@@ -217,6 +217,22 @@ def foreign_layouts(sc, rep, rng, tier, windowed=False):
             rep.violation("foreign:selection", "%s: %d records re-timed, %d lines printed with instants %s" % (rel, k, nlines, got), rec)
         elif got != want:
             rep.violation("foreign:order", "%s (record size %d): records printed with instants %s, time order is %s" % (rel, recsz, got, want), rec)
+        nfields = 0
+        if not rr.crashed and got == want and nlines == k:
+            # "each printed line shows that record's own field values": every quoted text field of the j-th printed line is
+            # found in the bytes of the record that comes j-th in time order, whatever the layout
+            order = [i_ for _, _, i_ in sorted(zip(secs, usecs, range(k)))]
+            plines = [ln for ln in rr.out.replace(b"\0", b"").split(b"\n") if ln]
+            for j_, ln in enumerate(plines):
+                raw = bytes(recs[order[j_]])
+                for fld in re.findall(rb"'([\x21-\x26\x28-\x7e][\x20-\x26\x28-\x7e]*)'", ln):
+                    if len(fld) < 3 or not re.search(rb"[A-Za-z]", fld):
+                        continue          # (numbers are quoted too: ut_session '0')
+                    nfields += 1
+                    if fld not in raw:
+                        rep.violation("foreign:fields", "%s: line %d shows the text field %r, which is not in the bytes of the record printed there"
+                                      % (rel, j_, fld), dict(rec, line=ln[:300].decode(errors="replace")))
+                        break
         nwin = 0
         if windowed and not rr.crashed and got == want:
             # windows on, between and around the re-timed records: bounds on a record's exact instant, on the whole second
@@ -243,7 +259,7 @@ def foreign_layouts(sc, rep, rng, tier, windowed=False):
                 if rw.crashed or gotw != wantw:
                     rep.violation("foreign:window", "%s re-timed, window [%s, %s]: printed %s, the window holds %s (rc=%s)" % (rel, a, b, gotw, wantw, rw.rc),
                                   dict(rec, after=a, before=b))
-        done.append({"sample": rel, "record_size": recsz, "seconds_at": o_s, "microseconds_at": o_u, "records": k, "windows": nwin})
+        done.append({"sample": rel, "record_size": recsz, "seconds_at": o_s, "microseconds_at": o_u, "records": k, "windows": nwin, "text_fields_checked": nfields})
     return done
 
 
